@@ -16,6 +16,7 @@ git apply $out/patch.diff || { echo "PATCH DOES NOT APPLY"; git -C /repo worktre
 echo "--- demo with the change"
 PYTHONPATH=$wt timeout 300 /venv/bin/python demo.py > $out/demo_with.log 2>&1; rc1=$?
 echo "demo rc without=$rc0 with=$rc1"
+rm -f $wt/demo.py    # the suite collects *.py (doctest modules): a demo without a __main__ guard would end the run
 PYTHONPATH=$wt /venv/bin/python -c "import mapproxy" || echo "IMPORT FAILS"
 if [ "$full" = "full" ]; then
   PYTHONPATH=$wt /venv/bin/python -m pytest -ra -q -p no:cacheprovider --timeout=900 --continue-on-collection-errors --junitxml=/dev/shm/confirm-$name.xml > /dev/shm/confirm-$name.log 2>&1
